@@ -69,7 +69,8 @@ def _read_last_cached_time(cache_folder):
         with open(timestamp_filename, "r") as f:
             timestamp = float(f.readline())
             return timestamp
-    except FileNotFoundError or ValueError or IOError:
+    except (FileNotFoundError, ValueError, IOError):
+        # No timestamp yet, or one that cannot be read (e.g. another process is rewriting it, or died doing so)
         return 0
 
 
